@@ -2,7 +2,9 @@
 
 Three implementations are driven through the same generated history (ticks at monotone absolute cycles with
 arbitrary gaps, per-cycle bursts, reset(cycle_base), snapshot->restore into a fresh object, firmware-style
-ISR writes) and each is compared, observation by observation, with an arithmetic reference:
+ISR writes, gated stretches ["g", c] in which the cycle counter advances without a tick -- as inside an interrupt
+handler --, power-on resets ["R"] after which the clock restarts at 0) and each is compared, observation by
+observation, with an arithmetic reference:
 
   py-sched  pce500.scheduler.TimerScheduler.advance                  (returned sources, next targets)
   py-emu    pce500.emulator.PCE500Emulator._tick_timers/_simulate_wait (the scheduler as the emulator ticks
@@ -36,11 +38,21 @@ RULE = ("histories over (mti, sti, enabled): all period pairs in {0..12}^2 (comp
         "(quick 20, thorough 400) of kinds per-cycle (every cycle 1..3*lcm+5), gaps (0, 1, p-1, p, p+1, k*p, "
         "exact boundary landings, random up to 4*p, multi-period), wait (single steps, bursts, same-cycle "
         "re-ticks), with reset(cycle_base), snapshot->restore and ISR writes at generated points and cycle "
-        "bases 0 / small / straddling 2^31 / above 2^32 / above 2^40. Each history is executed on "
-        "TimerScheduler, on PCE500Emulator._tick_timers/_simulate_wait and on Rust TimerContext::tick_timers. "
+        "bases 0 / small / straddling 2^31 / above 2^32 / above 2^40; in 3 of 8 histories handler-shaped gated "
+        "stretches (the cycle counter advances without ticks: short, outlasting the next boundary, several "
+        "periods) with snapshot round trips inside them (saved target behind the cycle counter) and the catch-up "
+        "tick afterwards; in 1 of 4 histories power-on resets after N > 0 cycles (clock restarts at 0: "
+        "TimerScheduler.reset(), the real PCE500Emulator.reset(), TimerContext::reset(0)). Each history is "
+        "executed on TimerScheduler, on PCE500Emulator._tick_timers/_simulate_wait and on Rust "
+        "TimerContext::tick_timers. "
         "Machine layer: per pair in {0..12}^2 (quick 2, thorough 24 programs) plus larger periods, a generated "
         "NOP / MV IL,n+WAIT / HALT program stepped 24..73 times on PCE500Emulator.step and CoreRuntime.step with "
-        "ISR acknowledgements and real save/load snapshots at generated steps. "
+        "ISR acknowledgements and real save/load snapshots at generated steps (IMR = 0); plus per pair (quick 2, "
+        "thorough 12) and for larger periods an 'irq' flavour: ROM image with looping main program, interrupt "
+        "handler (RETI at once .. NOP runs .. own WAITs outlasting several periods) and vectors, IMR generated "
+        "(IRM with one/both timer sources, 0xFF, IRM only, sources without IRM, 0), 40..119 steps with up to 5 "
+        "real save/load round trips (also inside the handler) and up to 2 machine resets after N > 0 cycles "
+        "(PCE500Emulator.reset(); CoreRuntime power_on_reset + timer.reset_full(cycle_count)). "
         "Non-trivial = some active timer crosses >= 2 boundaries in the history, or a tick lands exactly on a "
         "boundary, or one gap skips > 1 period (machine layer: >= 2 target movements); distinct = (mti, sti, "
         "enabled, hash of the op list / program+step schedule).")
@@ -57,7 +69,17 @@ ASSUMPTIONS = [
     "the enabled flag is a per-history configuration; toggling it or changing periods mid-history is not generated "
     "(the statement does not say what re-enabling/re-periodising does to the phase)",
     "ticks are monotone non-decreasing in the cycle number (same-cycle re-ticks included: the Python HALT wake "
-    "path ticks twice at one cycle); reset(cycle_base) uses cycle_base >= every earlier cycle",
+    "path ticks twice at one cycle); reset(cycle_base) uses cycle_base >= every earlier cycle; the only way back "
+    "is the power-on reset op, after which the clock restarts at 0",
+    "gated stretches: the cycle counter advances while nothing ticks the timers (what both machines do inside an "
+    "interrupt handler); the reference's boundaries do not move, the first tick afterwards fires once if >= 1 "
+    "boundary went by (catch-up) and a snapshot round trip in between keeps a target that lies behind the cycle "
+    "counter (timer.rs: 'do not rebase forward. Allow immediate fire if targets are in the past'; "
+    "PCE500Emulator.load_snapshot: 'Restore persisted next-fire offsets so cadence matches the snapshot')",
+    "power-on reset: afterwards next target - cycle counter == period (PCE500Emulator.reset(): 'to match power-on "
+    "behaviour', pce500/tests/test_interrupts.py::test_reset_reinitializes_timers_and_interrupt_state); an "
+    "implementation whose counter is not 0 after the reset is judged on that relation only and not followed "
+    "further; the ISR byte is re-read after the reset (no verdict on it)",
     "snapshot/restore is a round trip at one point of the history (snapshot_info -> apply_snapshot_info on a "
     "fresh TimerContext; Python: the field assignments PCE500Emulator.load_snapshot performs on a fresh "
     "TimerScheduler); restoring an older snapshot or cross-loading Python<->Rust is C16's subject",
@@ -72,7 +94,21 @@ ASSUMPTIONS = [
     "PCE500Emulator._simulate_wait(n) is expected to advance cycle_count by n and to tick the scheduler once per "
     "cycle (Rust lib.rs: 'mirroring Python _simulate_wait which burns I cycles and ticks timers/keyboard each "
     "iteration')",
-    "machine layer: IMR = 0 so no interrupt is delivered and ticking is never suppressed; the two machines tick "
+    "machine layer, plain flavour: IMR = 0 so no interrupt is delivered and ticking is never suppressed; irq "
+    "flavour: IMR generated, interrupts are delivered and handlers run.  'No boundary <= C-1 left unconsumed' is "
+    "asserted for steps whose instruction executed outside a handler (in_interrupt false when the instruction "
+    "ran: CoreRuntime = flag before the step, PCE500Emulator = flag at cpu.execute_instruction, recorded by an "
+    "instance-level observer) -- both machines tick every cycle of such an instruction, WAIT idle cycles included, "
+    "and deliver only at instruction boundaries; for instructions inside a handler only grid / monotone / 'not "
+    "beyond the smallest boundary > C' / status-bit consistency are asserted (that ticking is *suppressed* there is "
+    "the mechanism, not part of the statement, and is not asserted); 'a pending status bit is not cleared by a "
+    "step' is asserted outside handlers only (CoreRuntime's RETI clears the delivered bit); a run whose PC leaves "
+    "main program and handler is not judged further (label machine:derailed, expected 0)",
+    "machine reset at a generated step: PCE500Emulator.reset() / CoreRuntime.power_on_reset() + "
+    "timer.reset_full(cycle_count) (what the PyO3 wrapper's power_on_reset does), then S, IMR, ISR are re-written "
+    "by the harness as at start; verdict: next target - cycle counter == period, and the grid is re-anchored at "
+    "the machine's own counter",
+    "the two machines tick "
     "at different points of a step (Python at the start of the next step, Rust at the end of this one), so after a "
     "step ending at cycle C the target may be the smallest boundary > C-1 or > C; firing is observed through "
     "target movement and the ISR bit; how many cycles an instruction takes is taken from the machine's own cycle "
@@ -123,7 +159,8 @@ def ref_run(case: Dict[str, Any]) -> Tuple[List[Any], Dict[str, Any]]:
     last = 0
     out: List[Any] = []
     facts = {"cross_m": 0, "cross_s": 0, "landing": False, "multi": False, "both": False, "same": False,
-             "hi": False, "ticks": 0}
+             "hi": False, "ticks": 0, "gated": False, "stale_snap": False, "catch_up": False, "restart": False}
+    gated_since_tick = False
 
     def one(c: int) -> Dict[str, Any]:
         nonlocal isr
@@ -147,21 +184,48 @@ def ref_run(case: Dict[str, Any]) -> Tuple[List[Any], Dict[str, Any]]:
             if arg == last and facts["ticks"]:
                 facts["same"] = True
             last = arg
-            out.append(one(arg))
+            e = one(arg)
+            if gated_since_tick and (e["fm"] or e["fs"]):
+                facts["catch_up"] = True
+            gated_since_tick = False
+            out.append(e)
         elif verb == "b":
             burst = []
             for _ in range(arg):
                 last += 1
                 burst.append(one(last))
+            if gated_since_tick and burst and (burst[0]["fm"] or burst[0]["fs"]):
+                facts["catch_up"] = True
+            if burst:
+                gated_since_tick = False
             out.append(burst)
         elif verb == "r":
             tm.reset(arg)
             ts.reset(arg)
             last = arg
+            gated_since_tick = False
             out.append({"nm": tm.nxt(), "ns": ts.nxt(), "hi": (tm.nxt() or 0) > I32MAX or (ts.nxt() or 0) > I32MAX})
         elif verb == "s":
-            out.append({"nm": tm.nxt(), "ns": ts.nxt(),
+            # stale: the saved target is not in the future of the cycle counter handed to the restore (the
+            # timers were gated while a boundary went by)
+            stale = [n is not None and n <= last for n in (tm.nxt(), ts.nxt())]
+            facts["stale_snap"] |= any(stale)
+            out.append({"nm": tm.nxt(), "ns": ts.nxt(), "stale": stale, "c": last,
                         "hi": last > I32MAX or (tm.nxt() or 0) > I32MAX or (ts.nxt() or 0) > I32MAX})
+        elif verb == "g":
+            # gated advance: the cycle counter moves on, the timers are not ticked (mark stays)
+            last = arg
+            gated_since_tick = True
+            facts["gated"] = True
+            out.append({"nm": tm.nxt(), "ns": ts.nxt(), "c": arg})
+        elif verb == "R":
+            # power-on style reset: the clock restarts at 0 and the grid is anchored there
+            tm.reset(0)
+            ts.reset(0)
+            last = 0
+            gated_since_tick = False
+            facts["restart"] = True
+            out.append({"nm": tm.nxt(), "ns": ts.nxt(), "hi": False})
         elif verb == "w":
             out.append({"isr": arg & 0xFF})
         else:
@@ -250,6 +314,13 @@ def run_py_sched(case: Dict[str, Any]) -> List[Any]:
             obs.append([s.next_mti, s.next_sti])
         elif verb == "w":
             obs.append([arg & 0xFF])
+        elif verb == "g":
+            last = arg
+            obs.append([s.next_mti, s.next_sti])
+        elif verb == "R":
+            s.reset()                       # default cycle_base: the power-on call PCE500Emulator.reset() makes
+            last = 0
+            obs.append([s.next_mti, s.next_sti, 0, None])
     return obs
 
 
@@ -357,6 +428,16 @@ def run_py_emu(case: Dict[str, Any]) -> List[Any]:
         elif verb == "w":
             emu.memory.write_byte(isr_addr, arg & 0xFF)
             obs.append([emu.memory.read_byte(isr_addr) & 0xFF])
+        elif verb == "g":
+            last = arg
+            emu.cycle_count = arg
+            obs.append([emu._scheduler.next_mti, emu._scheduler.next_sti])
+        elif verb == "R":
+            emu.cycle_count = last          # the machine has run this far ...
+            emu.reset()                     # ... and is reset: the real PCE500Emulator.reset()
+            last = 0
+            obs.append([emu._scheduler.next_mti, emu._scheduler.next_sti, int(emu.cycle_count),
+                        emu.memory.read_byte(isr_addr) & 0xFF])
     return obs
 
 
@@ -378,10 +459,13 @@ def run_rust(cases: List[Dict[str, Any]]) -> List[Any]:
 # Verdicts
 # --------------------------------------------------------------------------------------------------
 
-def _ctx_name(after_reset: bool, after_snap: bool, hi: bool, full: bool = False) -> str:
+def _ctx_name(after_reset: bool, after_snap: bool, hi: bool, full: bool = False, stale: bool = False) -> str:
     """Context part of `where`.  Tick-level verdicts only say whether a restore preceded them; the reset/restore
-    verdicts (full=True) also say whether a target lies beyond the i32 range, which is causal there."""
+    verdicts (full=True) also say whether the target lies beyond the i32 range and whether it was already behind
+    the cycle counter handed to the restore (timers gated while a boundary went by): both are causal there."""
     s = " after-snapshot" if after_snap else ""
+    if full and stale:
+        s += " stale-target"
     if full and hi:
         s += " targets>i32"
     return s
@@ -576,11 +660,31 @@ def judge(case: Dict[str, Any], ref: List[Any], impl: str, obs: Any, has_isr: bo
                            f"reset({op[1]}): next target {o[ti]}, expected {(e['nm'], e['ns'])[ti]}")
         elif verb == "s":
             after_snap = True
-            ctx = _ctx_name(after_reset, True, e["hi"], True)
             for ti, t in enumerate(TIMERS):
-                if active[t] and o[ti] != (e["nm"], e["ns"])[ti]:
+                want = (e["nm"], e["ns"])[ti]
+                if active[t] and o[ti] != want:
+                    ctx = _ctx_name(after_reset, True, (want or 0) > I32MAX, True, e["stale"][ti])
                     J.fail(t, opi, "restore", t, ctx, "snapshot/restore changed the next target",
-                           f"restore at cycle {prev_c}: next target {o[ti]}, before the snapshot {(e['nm'], e['ns'])[ti]}")
+                           f"restore at cycle {e['c']}: next target {o[ti]}, before the snapshot {want}")
+        elif verb == "g":
+            prev_c = e["c"]
+        elif verb == "R":
+            after_reset, after_snap = True, False
+            c0 = int(o[2])
+            for ti, t in enumerate(TIMERS):
+                if active[t] and o[ti] - c0 != periods[t]:
+                    J.fail(t, opi, "reset", t, _ctx_name(True, False, False, True),
+                           "power-on reset did not re-arm the timer one period after the restarted cycle counter",
+                           f"reset after cycle {prev_c}: cycle counter {c0}, next target {o[ti]}, "
+                           f"expected {c0 + periods[t]}")
+            prev_c = 0
+            if c0 != 0:
+                # the history continues on a clock restarted at 0; an implementation that keeps its counter
+                # across reset() cannot be followed any further (not a verdict: the statement does not say so)
+                for k in J.dead:
+                    J.dead[k] = True
+            if has_isr and o[3] is not None:
+                isr = int(o[3])     # reset may clear memory: re-baseline the status byte, no verdict
         elif verb == "w":
             isr = e["isr"]
             if has_isr and o[0] != isr:
@@ -600,7 +704,7 @@ def differential(case: Dict[str, Any], ref: List[Any], py: List[Any], rs: Any,
     done = [False, False]
     for opi, (op, e, a, b) in enumerate(zip(case["ops"], ref, py, rs)):
         verb = op[0]
-        if verb == "r":
+        if verb in ("r", "R"):
             after_reset, after_snap = True, False
         elif verb == "s":
             after_snap = True
@@ -700,6 +804,8 @@ class _Gen:
         self.ops: List[List[Any]] = []
         self.budget = LOOP_BUDGET
         self.nticks = 0
+        self.p_gate = 0      # percent per step: handler-shaped gated stretch
+        self.p_restart = 0   # percent per step: power-on reset (clock restarts at 0)
 
     def _advance_ref(self, c: int) -> None:
         self.tm.tick(c)
@@ -742,6 +848,56 @@ class _Gen:
         self.ops.append(["s", self.st.below(2)])
         return True
 
+    def gated(self, gap: int) -> bool:
+        """The cycle counter moves on by `gap` while the timers are not ticked (an interrupt handler is running,
+        or the host simply did not tick).  The catch-up work falls on the next tick and is charged here."""
+        if gap <= 0:
+            return False
+        cost = gap // self.minp
+        if cost > self.budget:
+            return False
+        self.budget -= cost
+        self.c += gap
+        self.ops.append(["g", self.c])
+        return True
+
+    def handler_episode(self) -> None:
+        """Handler-shaped stretch: gated advance (short / outlasting the next boundary by 0,1,2,p / several
+        periods / ending just before a boundary), optionally a snapshot round trip *inside* it (the saved target
+        may then lie behind the cycle counter), optionally more gated time, then the first tick after 'RETI'."""
+        st = self.st
+        tgt = [n for n in (self.tm.nxt(), self.ts.nxt()) if n is not None]
+        p = st.choice(self.ps) if self.ps else 1 + st.below(6)
+        k = st.below(7)
+        if k == 0:
+            gap = 1 + st.below(3)
+        elif k in (1, 2) and tgt:
+            gap = max(1, st.choice(tgt) - self.c + st.choice((0, 0, 1, 2, self.minp)))
+        elif k == 3:
+            gap = p * (1 + st.below(3)) + st.below(p)
+        elif k == 4 and tgt:
+            gap = max(1, st.choice(tgt) - self.c - 1)
+        elif k == 5 and tgt:
+            gap = max(1, max(tgt) - self.c + st.below(3))
+        else:
+            gap = 1 + st.below(2 * self.maxp)
+        if not self.gated(gap):
+            return
+        if st.chance(2, 3):
+            self.snapshot()
+            if st.chance(1, 3):
+                self.gated(1 + st.below(self.maxp + 2))
+                if st.chance(1, 3):
+                    self.snapshot()
+        self.tick_gap(st.choice((0, 1, 1, 2)))
+
+    def power_reset(self) -> None:
+        """Power-on style reset (PCE500Emulator.reset()): the clock restarts at 0."""
+        self.ops.append(["R"])
+        self.tm.reset(0)
+        self.ts.reset(0)
+        self.c = 0
+
     def isr_write(self) -> None:
         st = self.st
         k = st.below(4)
@@ -777,6 +933,11 @@ class _Gen:
 
     def sprinkle(self, p_reset: int, p_snap: int, p_w: int) -> None:
         st = self.st
+        if self.p_gate and st.below(100) < self.p_gate:
+            self.handler_episode()
+        if self.p_restart and st.below(100) < self.p_restart and self.c > 0:
+            self.power_reset()
+            return
         r = st.below(100)
         if r < p_reset:
             self.reset(self.c + st.choice((0, 0, 1, 3, self.minp, 17)))
@@ -821,6 +982,15 @@ def admissible(case: Dict[str, Any]) -> bool:
             top = max(last, tm.nxt() or 0, ts.nxt() or 0)
             if top > I32MAX:
                 cost += (top - I32MAX) // minp + 1
+        elif verb == "g":
+            if arg < last:
+                return False
+            cost += (arg - last) // minp
+            last = arg
+        elif verb == "R":
+            last = 0
+            tm.reset(0)
+            ts.reset(0)
         if cost > LOOP_BUDGET:
             return False
     return True
@@ -848,6 +1018,12 @@ def gen_case(seed: int, mti: int, sti: int, enabled: bool, kind: str, idx: int, 
     # feature probabilities (percent per step) -- some histories have none so plain cadence is also covered
     mode = st.below(4)
     pr, ps_, pw = ((0, 0, 0), (2, 4, 6), (0, 8, 4), (5, 0, 8))[mode]
+    # handler-shaped gated stretches (with snapshots inside) in 3 of 8 histories, power-on resets in 1 of 4
+    g.p_gate = (0, 0, 0, 0, 0, 5, 10, 20)[st.below(8)]
+    g.p_restart = (0, 0, 0, 4)[st.below(4)]
+    if kind == "percycle" and not small:
+        g.p_gate *= 3
+        g.p_restart *= 3
     if kind == "percycle":
         if small:
             total = 3 * lcm + 5 if lcm else 20
@@ -965,7 +1141,8 @@ def _labels(case: Dict[str, Any], facts: Dict[str, Any]) -> List[str]:
     if max(case["mti"], case["sti"]) > 12:
         lab.append("large-period")
     verbs = {op[0] for op in case["ops"]}
-    for v, name in (("r", "has-reset"), ("s", "has-snapshot"), ("w", "has-isr-write"), ("b", "has-burst")):
+    for v, name in (("r", "has-reset"), ("s", "has-snapshot"), ("w", "has-isr-write"), ("b", "has-burst"),
+                    ("g", "has-gated-advance"), ("R", "has-power-on-reset")):
         if v in verbs:
             lab.append(name)
     for k, name in (("landing", "exact-landing"), ("multi", "multi-period-gap"), ("both", "both-fire-one-tick"),
@@ -974,6 +1151,10 @@ def _labels(case: Dict[str, Any], facts: Dict[str, Any]) -> List[str]:
             lab.append(name)
     if facts.get("hi") and "s" in verbs:
         lab.append("snapshot-with-targets>i32")
+    if facts.get("stale_snap"):
+        lab.append("snapshot-with-stale-target")
+    if facts.get("catch_up"):
+        lab.append("catch-up-fire-after-gated-stretch")
     return lab
 
 
@@ -1007,8 +1188,19 @@ def _machine_labels(case: Dict[str, Any], facts: Dict[str, Any]) -> List[str]:
     lab = ["layer:machine", "machine:enabled" if case["enabled"] else "machine:disabled"]
     if "timer_base" in case:
         lab.append("machine:targets>i32")
-    if any(s[1] for s in case["steps"]):
+    if any(s[1] == 1 for s in case["steps"]):
         lab.append("machine:real-snapshot")
+    if case.get("flavour") == "irq":
+        lab.append("machine:irq-flavour")
+        lab.append(f"machine:imr={int(case.get('imr', 0)):#04x}")
+    for k, name in (("deliveries", "machine:interrupt-delivered"), ("handler_steps", "machine:steps-inside-handler"),
+                    ("snap_in_handler", "machine:snapshot-inside-handler"),
+                    ("stale_restore", "machine:restore-with-stale-target"),
+                    ("wait_unmasked_multi", "machine:unmasked-wait-over->=2-boundaries"),
+                    ("catch_up_after_handler", "machine:catch-up-fire-after-handler"),
+                    ("reset_after_run", "machine:reset-after-N>0-cycles"), ("derailed", "machine:derailed")):
+        if facts.get(k):
+            lab.append(name)
     if facts.get("halt_idle"):
         lab.append("machine:idle-halt-cycles")
     if facts.get("wait_multi"):
@@ -1023,7 +1215,7 @@ def _machine_labels(case: Dict[str, Any], facts: Dict[str, Any]) -> List[str]:
 def _machine_shard(task: Tuple[int, str, List[Tuple[Any, ...]]]) -> Report:
     seed, tier, configs = task
     rep = Report()
-    cases = [M.gen_machine_case(seed, *cfg) for cfg in configs]
+    cases = [M.gen_from_config(seed, cfg) for cfg in configs]
     n = 0
     for i in range(0, len(cases), 32):
         chunk = cases[i:i + 32]
@@ -1031,7 +1223,8 @@ def _machine_shard(task: Tuple[int, str, List[Tuple[Any, ...]]]) -> Report:
             for v in vs:
                 rep.violate(v)
             nt = facts.get("fires", 0) >= 2
-            key = jhash(["m", case["mti"], case["sti"], case["enabled"], case["prog"], case["steps"]], 16) if nt else None
+            key = jhash(["m", case["mti"], case["sti"], case["enabled"], case["prog"], case["steps"],
+                         case.get("handler"), case.get("imr")], 16) if nt else None
             n += 1
             sample = case if (n % 41 == 3 and len(case["steps"]) <= 40) else None
             rep.case(key, _machine_labels(case, facts), sample)
@@ -1050,7 +1243,7 @@ def run(ctx: Ctx) -> Report:
     configs = plan(ctx.seed, ctx.tier)
     mconfigs = M.plan(ctx.seed, ctx.tier)
     nshards = 16 if ctx.quick else 64
-    nm = 8 if ctx.quick else 32
+    nm = 12 if ctx.quick else 48
     tasks: List[Tuple[str, Any]] = []
     for i in range(max(nshards, nm)):     # interleave so both layers spread over the pool
         if i < nshards:
@@ -1061,8 +1254,12 @@ def run(ctx: Ctx) -> Report:
     rep.rule = RULE
     rep.assumptions = list(ASSUMPTIONS)
     rep.extra["small_period_pairs_covered"] = len({(c[0], c[1]) for c in configs if c[0] <= 12 and c[1] <= 12})
-    rep.extra["small_period_pairs_covered_machine"] = len({(c[0], c[1]) for c in mconfigs
+    plain = [c for c in mconfigs if c[0] != "irq"]
+    irqc = [c[1:] for c in mconfigs if c[0] == "irq"]
+    rep.extra["small_period_pairs_covered_machine"] = len({(c[0], c[1]) for c in plain
                                                            if c[0] <= 12 and c[1] <= 12})
+    rep.extra["small_period_pairs_covered_machine_irq"] = len({(c[0], c[1]) for c in irqc
+                                                               if c[0] <= 12 and c[1] <= 12})
     rep.exhaustive = False
     return rep
 
